@@ -625,6 +625,13 @@ func (fc *flowCtx) errPropagatedExcept(fn *ssa.Function, call ssa.Instruction, e
 				n++
 			case *ssa.Phi:
 				n++
+			case *ssa.Call:
+				// the error is also shown to something (a logger, a metrics hook) before it is returned: reading it does not
+				// consume it — unless it is the callee of the call
+				if x.Call.Value == e {
+					allRet = false
+				}
+			case *ssa.DebugRef:
 			default:
 				allRet = false
 			}
